@@ -56,6 +56,7 @@ type Explorer struct {
 	MapPerms         int // permute map iteration for maps up to this many entries
 	PanicIsViolation bool
 	SprintfMax       int
+	TickerTicks      int
 	PermuteIn        map[string]bool
 	SymIndex         bool
 	Deadlocks        map[string]int
